@@ -132,6 +132,8 @@ class Device(object):
             if s.awaiting_ack:
                 s.awaiting_ack = False
                 self.pump(s)
+            elif self.cfg.get('flood'):
+                pass                      # a device that does not wait for acknowledgements does not count them either
             else:
                 self.issue('okay', 'host OKAY on stream %d although no device WRTE is outstanding' % s.local)
         elif c == b'WRTE':
@@ -237,6 +239,11 @@ class Device(object):
             s.finished = True
         if getattr(s, 'endless', False) and not s.out:
             s.out.append(b'more-%d;' % len(s.wrote))       # a command that never finishes (logcat-like)
+        while self.cfg.get('flood') and len(s.out) > 1:
+            # a device without stop-and-wait (not adbd; canned test devices and some old firmware behave like this): everything at once
+            payload = s.out.popleft()
+            s.wrote.append(payload)
+            self.enqueue(s.q, Packet(b'WRTE', s.remote, s.local, payload))
         if s.out and not s.awaiting_ack:
             payload = s.out.popleft()
             s.wrote.append(payload)
